@@ -187,7 +187,11 @@ theorem inv_spawn (s : Pool) (tid : Nat) (t t' : Task) (held : Bool) (h : HoldEf
   · simp only [Option.some.injEq, Prod.mk.injEq] at hs
     obtain ⟨rfl, rfl⟩ := hs
     constructor <;> intros <;> simp_all [LStatus.final, HoldEff.bit]
-  · simp at hs
+  · split at hs
+    · simp only [Option.some.injEq, Prod.mk.injEq] at hs
+      obtain ⟨rfl, rfl⟩ := hs
+      constructor <;> intros <;> simp_all [LStatus.final, HoldEff.bit]
+    · simp at hs
 
 set_option maxHeartbeats 1000000 in
 theorem inv_spawnFail (s : Pool) (tid : Nat) (t t' : Task) (held : Bool) (h : HoldEff) (x : Nat)
@@ -199,7 +203,11 @@ theorem inv_spawnFail (s : Pool) (tid : Nat) (t t' : Task) (held : Bool) (h : Ho
   · simp only [Option.some.injEq, Prod.mk.injEq] at hs
     obtain ⟨rfl, rfl⟩ := hs
     constructor <;> intros <;> simp_all [LStatus.final, HoldEff.bit]
-  · simp at hs
+  · split at hs
+    · simp only [Option.some.injEq, Prod.mk.injEq] at hs
+      obtain ⟨rfl, rfl⟩ := hs
+      exact ⟨i1, i2, i3, i4, i5, i6, i7, i8, i9, i10, i11, i12, i13, i14, i15, i16, i17, by simpa [HoldEff.bit] using i18⟩
+    · simp at hs
 
 set_option maxHeartbeats 1000000 in
 theorem inv_taskDone (s : Pool) (tid : Nat) (t t' : Task) (held : Bool) (h : HoldEff) (x : Nat) (c : Bool)
